@@ -67,13 +67,23 @@ def lake_build(targets, timeout=3600):
 
 
 def theorem_names(module):
-    """names of the property theorems (`theorem Cxx_...`) declared in a Props module"""
+    """fully qualified names of the property theorems (`theorem Cxx_...`) declared in a Props module"""
     path = os.path.join(LEAN_DIR, module.replace(".", "/") + ".lean")
     code = strip_comments(open(path).read())
-    ns = re.findall(r"^namespace\s+(\S+)", code, re.M)
-    prefix = (ns[0] + ".") if ns else ""
-    names = re.findall(r"^\s*(?:protected\s+)?theorem\s+([A-Za-z_][\w'.]*)", code, re.M)
-    return [prefix + n for n in names if re.match(r"^(C\d\d|F\d\d|fact)_", n.split(".")[-1])]
+    stack, names = [], []
+    for line in code.split("\n"):
+        m = re.match(r"^\s*namespace\s+(\S+)", line)
+        if m:
+            stack.append(m.group(1))
+            continue
+        m = re.match(r"^\s*end\s+(\S+)\s*$", line)
+        if m and stack and stack[-1] == m.group(1):
+            stack.pop()
+            continue
+        m = re.match(r"^\s*(?:@\[[^\]]*\]\s*)?(?:protected\s+|private\s+)?theorem\s+([A-Za-z_][\w'.]*)", line)
+        if m and re.match(r"^(C\d\d|fact)_", m.group(1).split(".")[-1]):
+            names.append(".".join(stack + [m.group(1)]))
+    return names
 
 
 def audit(modules, tag):
@@ -93,9 +103,9 @@ def audit(modules, tag):
                        text=True, timeout=1800)
     out = r.stdout
     res = {n: None for n in names}
-    for m in re.finditer(r"'([^']+)' depends on axioms: \[([^\]]*)\]", out):
+    for m in re.finditer(r"'(\S+)' depends on axioms: \[([^\]]*)\]", out):
         res[m.group(1)] = [a.strip() for a in m.group(2).split(",") if a.strip()]
-    for m in re.finditer(r"'([^']+)' does not depend on any axioms", out):
+    for m in re.finditer(r"'(\S+)' does not depend on any axioms", out):
         res[m.group(1)] = []
     return res, out, r.returncode
 
